@@ -80,13 +80,16 @@ func corrC18(c *corrCtx) {
 	if c.thorough() {
 		tails = append(tails, 16<<20, 64<<20)
 	}
-	reps := 2
+	reps := 3
 	if c.thorough() {
-		reps = 12
+		reps = 14
 	}
 	for rep := 0; rep < reps; rep++ {
 		for _, withICC := range []bool{false, true} {
-			psz := r.pick(1, 300, 4000, 4096, 9000, 70000)
+			psz := []int{70000, 300, 140000, 4096, 1, 9000, 65537, 4000, 700000, 65536}[rep%10]
+			if rep >= 10 {
+				psz = r.pick(1, 300, 4000, 4096, 9000, 70000, 100000)
+			}
 			p := randProfilePayload(r, psz)
 			// PNG: ICC before or after other ancillary data
 			pd := randPngDesc(r, withICC, p)
